@@ -184,7 +184,7 @@ def decompose(test: ast.AST, value: bool, text, expand=None) -> list[tuple[str, 
         if len(test.values) == 1:
             return decompose(test.values[0], value, text, expand)
         return []
-    if isinstance(test, ast.Call) and expand is not None:
+    if isinstance(test, (ast.Call, ast.Attribute)) and expand is not None:
         try:
             e = expand(test)
         except Exception:
@@ -874,3 +874,129 @@ def check_str_enum_identity(ctx, rule_id: str, prefixes: tuple[str, ...], what: 
         )
     if not hits:
         chk.ok(rule_id, ", ".join(prefixes), "", f"{n} comparisons with str-Enum members, none by identity")
+
+
+# --------------------------------------------------------------------------
+_IMMEDIATE_CONSUMERS = {"sorted", "min", "max", "map", "filter", "any", "all", "sum", "next", "list", "tuple", "set", "dict", "reduce", "takewhile", "dropwhile", "groupby"}
+
+
+def late_binding_closures(ctx, module_prefixes: tuple[str, ...]):
+    """(function, closure node, variable) for a lambda / nested def created in
+    a ``for`` loop that reads the loop variable as a free variable and is *kept*
+    (stored in a container or attribute, returned, yielded): every kept
+    closure sees the value of the last iteration.  Closures handed to a call
+    that consumes them at once (``sorted(key=...)``, ``min``, ``map`` ...) and
+    closures that bind the variable as a default (``lambda x, v=v: ...``) are
+    fine."""
+    out = []
+    n = 0
+    for fi in ctx.repo.all_functions():
+        if isinstance(fi.node, ast.Lambda) or not fi.module.name.startswith(module_prefixes):
+            continue
+        parents = fi.module.parents
+        for lp in own_nodes(fi.node):
+            if not isinstance(lp, (ast.For, ast.comprehension)):
+                continue
+            tnames = {x.id for x in ast.walk(lp.target) if isinstance(x, ast.Name)} - {"_"}
+            if isinstance(lp, ast.For):
+                # names rebound in every iteration behave like the loop variable
+                for b in lp.body:
+                    for x in ast.walk(b):
+                        if isinstance(x, (ast.FunctionDef, ast.Lambda)):
+                            continue
+                        if isinstance(x, ast.Name) and isinstance(x.ctx, ast.Store):
+                            tnames.add(x.id)
+                for b in lp.body:
+                    for x in ast.walk(b):
+                        if isinstance(x, ast.FunctionDef):
+                            tnames.discard(x.name)
+            if not tnames:
+                continue
+            scope = lp.body if isinstance(lp, ast.For) else None
+            if scope is None:
+                # comprehension: the element expression(s) of the enclosing comprehension
+                comp = parents.get(lp)
+                if comp is None:
+                    continue
+                scope = [comp.elt] if hasattr(comp, "elt") else [comp.key, comp.value]
+            for st in scope:
+                for c in ast.walk(st):
+                    if not isinstance(c, (ast.Lambda, ast.FunctionDef)):
+                        continue
+                    n += 1
+                    a = c.args
+                    bound = {x.arg for x in a.posonlyargs + a.args + a.kwonlyargs} | ({a.vararg.arg} if a.vararg else set()) | ({a.kwarg.arg} if a.kwarg else set())
+                    body = [c.body] if isinstance(c, ast.Lambda) else c.body
+                    local_stores = {x.id for b in body for x in ast.walk(b) if isinstance(x, ast.Name) and isinstance(x.ctx, ast.Store)}
+                    free = {x.id for b in body for x in ast.walk(b) if isinstance(x, ast.Name) and isinstance(x.ctx, ast.Load)} - bound - local_stores
+                    hit = sorted(free & tnames)
+                    if not hit:
+                        continue
+                    # how is the closure used?
+                    kept = False
+                    if isinstance(c, ast.FunctionDef):
+                        # a named nested def: kept if its name is stored / returned / appended
+                        for x in ast.walk(st if isinstance(lp, ast.For) else c):
+                            pass
+                        uses = [x for b in (lp.body if isinstance(lp, ast.For) else []) for x in ast.walk(b) if isinstance(x, ast.Name) and x.id == c.name and isinstance(x.ctx, ast.Load)]
+                        for u in uses:
+                            pu = parents.get(u)
+                            if isinstance(pu, ast.Call) and pu.func is u:
+                                continue  # called here
+                            if isinstance(pu, ast.Call) and (isinstance(pu.func, ast.Name) and pu.func.id in _IMMEDIATE_CONSUMERS):
+                                continue
+                            if isinstance(pu, ast.keyword) and pu.arg == "key":
+                                continue
+                            kept = True
+                    else:
+                        pu = parents.get(c)
+                        if isinstance(pu, ast.keyword):
+                            call = parents.get(pu)
+                            fn = call.func if isinstance(call, ast.Call) else None
+                            nm = fn.id if isinstance(fn, ast.Name) else fn.attr if isinstance(fn, ast.Attribute) else ""
+                            kept = not (pu.arg == "key" or nm in _IMMEDIATE_CONSUMERS or nm == "sort")
+                        elif isinstance(pu, ast.Call):
+                            fn = pu.func
+                            nm = fn.id if isinstance(fn, ast.Name) else fn.attr if isinstance(fn, ast.Attribute) else ""
+                            if pu.func is c:
+                                kept = False
+                            else:
+                                kept = nm not in _IMMEDIATE_CONSUMERS and nm != "sort"
+                        else:
+                            kept = True  # assigned, stored in a display, returned, yielded ...
+                    if kept:
+                        out.append((fi, c, hit[0]))
+    return out, n
+
+
+def check_late_binding(ctx, rule_id: str, prefixes: tuple[str, ...], what: str):
+    chk = ctx.chk
+    chk.rule(rule_id, f"no closure created in a loop of {what} keeps a reference to the loop variable (late binding: every kept closure sees the last value)")
+    hits, n = late_binding_closures(ctx, prefixes)
+    for fi, c, var in hits:
+        chk.violation(
+            rule_id, fi, c,
+            f"a {'lambda' if isinstance(c, ast.Lambda) else 'function'} created in a loop reads the loop variable `{var}` when it is *called*, not when it is "
+            "created: all the closures kept from that loop use the value of the last iteration",
+            loc=fi.loc(c),
+        )
+    if not hits:
+        chk.ok(rule_id, ", ".join(prefixes), "", f"{n} closures created in loops, none keeps the loop variable by reference")
+
+
+def mangled_overrides(ctx, module_prefixes: tuple[str, ...]):
+    """(class, method) where a class defines ``__name`` (two leading
+    underscores, not a dunder) that a base class of the package also defines:
+    such names are mangled per class, so the subclass method does not override
+    the base's and calls made in the base never reach it."""
+    out = []
+    for c in ctx.repo.classes.values():
+        if not c.module.name.startswith(module_prefixes):
+            continue
+        for name, m in c.methods.items():
+            if name.startswith("__") and not name.endswith("__") and m.cls is c:
+                for b in c.mro[1:]:
+                    bc = ctx.repo.classes.get(b)
+                    if bc is not None and name in bc.methods and bc.methods[name].cls is bc:
+                        out.append((c, m, bc))
+    return out
